@@ -170,7 +170,12 @@ func (p *sparser) expr() *SExpr {
 			if v.k != "ident" {
 				p.fail("expected bound variable")
 			}
-			vars = append(vars, v.v)
+			name := v.v
+			if nt := p.peek(); nt.k == "ident" && (nt.v == "str" || nt.v == "int" || nt.v == "real" || nt.v == "ref") {
+				p.next()
+				name += ":" + nt.v
+			}
+			vars = append(vars, name)
 			if p.isOp(",") {
 				p.next()
 				continue
